@@ -51,6 +51,8 @@ def _preamble_attrs(draw, d, eff_container):
 
 
 NOT_JSON = '$not-json'
+AS_TUPLE = '$tuple'
+INT_KEYS = '$int-keys'
 
 
 def materialize(v):
@@ -61,6 +63,13 @@ def materialize(v):
             return {'tuple-key': {('t', 1): 1, ('t', 2): 2},
                     'set': {1, 2},
                     'bytes': b'raw'}[v[NOT_JSON]]
+
+        if set(v) == {AS_TUPLE}:
+            # JSON can hold it (as an array), Python tells it from a list
+            return tuple(materialize(x) for x in v[AS_TUPLE])
+
+        if set(v) == {INT_KEYS}:
+            return {int(k): materialize(x) for k, x in v[INT_KEYS].items()}
 
         return {k: materialize(x) for k, x in v.items()}
 
@@ -181,6 +190,21 @@ def trees(draw, max_changes=4, max_files=3, min_changes=0,
 
         changes.append({'attrs': ca, 'files': files})
 
+    if not always_serialisable and draw(st.sampled_from(range(60))) == 0:
+        # an encoding option that is the empty string: nothing a header
+        # can carry, so nothing that may be written (or silently left out)
+        holders = [main] + [c['attrs'] for c in changes] + \
+            [f for c in changes for f in c['files']]
+        holder = draw(st.sampled_from(holders))
+        key = draw(st.sampled_from(['encoding', 'meta_encoding',
+                                    'preamble_encoding']))
+
+        if key != 'preamble_encoding' or holder.get('preamble'):
+            if key != 'meta_encoding' or holder.get('meta'):
+                if key != 'preamble_encoding' or not any(
+                        holder is f for c in changes for f in c['files']):
+                    holder[key] = ''
+
     return {
         'main': main,
         'changes': changes,
@@ -193,7 +217,7 @@ def trees(draw, max_changes=4, max_files=3, min_changes=0,
 # Building
 # ---------------------------------------------------------------------------
 
-def build(tree, ordered=True, probe=False):
+def build(tree, ordered=True, probe=False, staged=False):
     """Build the tree through the public API only.  Mutable arguments are
     deep-copied so the harness never shares an object between sections."""
     ns = sut.load()
@@ -217,6 +241,21 @@ def build(tree, ordered=True, probe=False):
 
         if tree.get('attr_order') == 'reversed':
             attrs = dict(reversed(list(attrs.items())))
+
+        if staged and not ctor:
+            # every content first holds something else, gets its options,
+            # and only then its final value
+            first = {'preamble': 'first\r\ndraft', 'meta': {'draft': 1},
+                     'diff': b'draft\r\n'}
+            order = ([(k, first[k]) for k in attrs if k in first] +
+                     list(attrs.items()) +
+                     [(k, v) for k, v in attrs.items() if k in first])
+            obj = factory()
+
+            for k, v in order:
+                setattr(obj, k, copy.deepcopy(v) if k in first else v)
+
+            return obj
 
         if ctor:
             return factory(**attrs)
@@ -427,6 +466,12 @@ def serialisable(program):
     for op, kw in program['calls']:
         if op == 'meta' and has_not_json(kw.get('metadata')):
             return False, 'metadata: not JSON'
+
+        if kw.get('encoding') == '':
+            return False, 'option: empty encoding'
+
+    if program.get('encoding') == '':
+        return False, 'option: empty encoding'
 
     try:
         spec.ref_segments(program)
